@@ -265,7 +265,7 @@ Print Assumptions C18_refused_resume_unchanged.
 
 (* facts about the constants scraped from the source on this run *)
 Theorem C18_gen_facts :
-  DESTROY_UNREGISTERS_FIRST = false /\ RESUME_ROLLS_BACK_ARGS = true /\ MCO_ZERO_MEMORY = true /\ 0 < STORAGE_SIZE /\
+  DESTROY_UNREGISTERS_FIRST = false /\ RESUME_ROLLS_BACK_ARGS = true /\ GC_REGISTERS_WHOLE_CORO_BLOCK = true /\ MCO_ZERO_MEMORY = true /\ 0 < STORAGE_SIZE /\
   NoDup (map cstate_code all_cstate) /\ NoDup (map mres_code all_mres) /\ NoDup (map describe all_mres) /\
   status_of_state Suspended = "suspended"%string /\ status_of_state Running = "running"%string /\
   status_of_state Normal = "normal"%string /\ status_of_state Dead = "dead"%string /\
